@@ -871,6 +871,11 @@ package cputensor
 //@   ensures imp(err == nil, len(cts) == len(ts) && forall(k, 0, len(ts), cts[k] == ts[k]))
 //@   loop 0 invariant len(cts) == len(ts) && forall(k, 0, i, ts[k] != nil && cts[k] == ts[k])
 
+// The back-edge chain of an implicitly broadcast operand (C07): the operand p handed to the rule constructor is the broadcast
+// image of t, and p's own single back edge (the Broadcast rule, which folds the upstream gradient over the copies) targets t.
+//@ define bsrc(p, t) := imp(trkT(p), len(p.gctx.backEdges) == 1 && p.gctx.backEdges[0].target == t)
+//@ define viaB(p, t) := p != nil && tinv(p) && isBcastImage(p, t) && ctx1(p, t) && bsrc(p, t)
+//@ define edges2B(o, t, u) := imp(trkT(o), len(o.gctx.backEdges) == 2 && viaB(o.gctx.backEdges[0].target, t) && viaB(o.gctx.backEdges[1].target, u))
 //@ func broadcastForBinaryOp
 //@   requires tinv(ct1) && tinv(ct2) && published(ct1) && published(ct2)
 //@   returns fresh
@@ -880,6 +885,7 @@ package cputensor
 //@   ensures[C03,C07] imp(err == nil, forallJ(J, imp(inb(bct1, J), el(bct1, J) == el(ct1, proj(ct1, bct1, J)) && el(bct2, J) == el(ct2, proj(ct2, bct2, J)))))
 //@   ensures[C03,C07] imp(err == nil, isBcastImage(bct1, ct1) && isBcastImage(bct2, ct2))
 //@   ensures[C08] imp(err == nil, ctx1(bct1, ct1) && ctx1(bct2, ct2) && edgeInv(bct1) && edgeInv(bct2) && tinv(bct1) && tinv(bct2))
+//@   ensures[C07] imp(err == nil, bsrc(bct1, ct1) && bsrc(bct2, ct2))
 
 //@ lemma btargetCompat1: forallT(a, forallT(b, forallJ(S, forallI(n, imp(isBTarget(a, b, S, n) && bcastOKA(a, S, n) && bcastOKA(b, S, n), bcompat(a, b))))))
 //@ lemma btargetCompat2: forallT(a, forallT(b, forallJ(S, forallI(n, imp(isBTarget(a, b, S, n) && bcompat(a, b), bcastOKA(a, S, n))))))
@@ -910,6 +916,7 @@ package cputensor
 //@   ensures[C04,C07] imp(err == nil, forallJ(J, imp(inb(bct1, J), el(bct1, J) == el(ct1, proj(ct1, bct1, J)))) && forallJ(J, imp(inb(bct2, J), el(bct2, J) == el(ct2, proj(ct2, bct2, J)))))
 //@   ensures[C04,C07] imp(err == nil, isBcastImage(bct1, ct1) && isBcastImage(bct2, ct2))
 //@   ensures[C08] imp(err == nil, ctx1(bct1, ct1) && ctx1(bct2, ct2) && edgeInv(bct1) && edgeInv(bct2) && tinv(bct1) && tinv(bct2))
+//@   ensures[C07] imp(err == nil, bsrc(bct1, ct1) && bsrc(bct2, ct2))
 
 /* ---------------- sums of products through broadcasting ---------------- */
 
